@@ -256,7 +256,7 @@ def known_expr(findings, meta):
 
 # ------------------------------------------------------------------------- obligation runner
 
-def run_obligation(res, spec, findings, must_raise=False):
+def run_obligation(res, spec, findings, must_raise=False, check_c04_only=False):
     shims.install()
     ex = Explorer(max_paths=spec.get("max_paths", 60000), path_ops=spec.get("path_ops", 6000))
 
@@ -280,7 +280,7 @@ def run_obligation(res, spec, findings, must_raise=False):
         if tag == "OK":
             if leak_scan(val):
                 raise HarnessError("placeholder buffer leaked into the reader's output")
-            bad, what = _mismatch_expr(val[0], 0, expected)
+            bad, what = (False, "") if check_c04_only else _mismatch_expr(val[0], 0, expected)
         elif tag == "HANG":
             bad, what = True, "reader does not terminate"
         else:
